@@ -25,8 +25,9 @@ type c01Case struct {
 
 func init() {
 	mc.Register(&mc.Property{
-		ID:    "C01",
-		Level: "exploration",
+		ID:     "C01",
+		Word32: true,
+		Level:  "exploration",
 		Rule: "E1 bounded-exhaustive enumeration: every bitmap of B(n,0) ∪ B1(m) (≤n words over the 12-word core alphabet; ≤m words with exactly one word from the wide alphabet of single bits, low-j masks, complements and adjacent pairs) " +
 			"× {IndexRank64 (no option, false, true), IndexRank128} and × every position i × {Rank64 on the plain index, Rank64 on the trailing index, Rank128}; oracle = bit-by-bit running count; plus a length sweep (every length 0..N words × 4 word patterns, all index flavours, all positions) in which every returned index is compared once more after the NEXT bitmap's indexes have been built (an index must not change because another one is built), 195 bitmaps whose lengths lie within 9 words of every power of two from 2^10 to 2^16 words, and bitmaps of 2^18+3 and 2^20+5 words (complete index, ranks at the ends and around every 1/16th). " +
 			"A case is one (bitmap, position) pair or one (bitmap, index flavour); it is non-trivial when the bitmap has ≥2 words, at least one 1 and at least one 0. Cases are distinct by construction (product of duplicate-free alphabets).",
